@@ -13,7 +13,8 @@ EXPLANATION = ("Progress of the producer. R1 (drain => published): whenever the 
                "re-loading the published reader position. R3: every read pass that consumed bytes commits them (accumulator-guard "
                "idiom recognised by value flow). R4: 'cannot grow' is reported by nullptr (retryable), an error only for records "
                "larger than the maximum."
-               " R1c: 'empty' is reported only right after the consumer's cache was refreshed with an acquire load. R6/R7 (= C20.R5, C05.R2): cache reload, hold-back exemptions. Configuration C (QUILL_X86ARCH) is analysed in both tiers.")
+               " R1c: 'empty' is reported only right after the consumer's cache was refreshed with an acquire load. R6/R7 (= C20.R5, C05.R2): cache reload, hold-back exemptions. Configuration C (QUILL_X86ARCH) is analysed in both tiers."
+               ' R4h: a record not larger than the configured maximum is granted or rejected, never refused for ever: the maximum is validated / normalised to a power of two or the rejection test rounds the record size (violated on the pinned tree for a non-power-of-two maximum: known finding, DESIGN 5.21).')
 NOT_DECIDED = ("The finite-poll bound under all histories, unbounded queues whose maximum capacity is not a power of two "
                "(configuration arithmetic), fairness of the OS scheduler.")
 ASSUMPTIONS = ["the backend keeps polling (C07/C10 cover its liveness)", "a decoded record has non-zero size (accumulator guard idiom)"]
@@ -72,6 +73,8 @@ def run(ctx):
             raise AnalysisBroken("UnboundedSPSCQueue not found")
         byname = {m.base: m for m in facts.fns if m.config == cfg and m.cls == c02.CLS and not m.rec.get("ctor") and not m.rec.get("dtor")}
         c02.check_r4(Renamed(ctx, "C02.R4", "C09.R4"), byname, strict=True)
+        if cfg == "A":
+            check_effective_maximum(ctx, facts, cfg, byname)
         # a producer resumes only if the backend reads its queue at all (registration / cache reload, = C20.R5) and consumes what is
         # at its head (a record that is held back for ever blocks everything behind it: hold-back rules, = C05.R2)
         from rules import c20, c05
@@ -87,6 +90,42 @@ def run(ctx):
             ok = bool(pos) and not g.exists_path([g.entry_node], [g.exit_node], avoid_nodes=pos)
             ctx.ob("C09.R3", "UnboundedSPSCQueue::%s:delegates" % mname, ok,
                    "UnboundedSPSCQueue::%s forwards to the current consumer node's bounded queue on every path" % mname, fn=m)
+
+
+def check_effective_maximum(ctx, facts, cfg, byname):
+    """R4h: 'fits' and 'can be granted' are the same thing. Node capacities are powers of two (every growth doubles; BoundedSPSCQueue
+    rounds up), the configured maximum is compared with them as it is. The refusal test (`capacity > _max_capacity` -> nullptr: wait or
+    drop) and the rejection test (`nbytes > _max_capacity` -> error) agree only if the maximum is a power of two; otherwise a record
+    between the largest power of two below the maximum and the maximum is neither granted nor rejected: refused for ever, on an empty
+    queue too. Accepted: the constructor validates or normalises the maximum (is_power_of_two / next_power_of_two / a throw that tests
+    it), or the rejection test compares a rounded size of the record."""
+    m = byname["_handle_full_queue"]
+    nbytes = m.rec["params"][0]["did"]
+    g = m.g
+    rej = []
+    for (b2, c2) in g.branch_edges_on(lambda c: c02.cmp_sides(c) is not None):
+        op2, l2, r2 = c02.cmp_sides(c2)
+        if is_this_field(strip(l2, casts=True), "_max_capacity"):
+            uses_n = any(x["k"] == "DeclRefExpr" and x.get("did") == nbytes for x in walk(r2))
+            rounded = any(is_call(x, r"(next_power_of_two|bit_ceil)") for x in walk(r2))
+            if uses_n:
+                rej.append(rounded)
+    ctors = [f for f in facts.fns if f.config == cfg and f.cls == c02.CLS and f.rec.get("ctor")]
+    validated = False
+    for f in ctors:
+        pm = [p["did"] for p in (f.rec.get("params") or []) if "max" in (p.get("name") or "")]
+        for c in f.calls(r"(is_power_of_two|next_power_of_two|bit_ceil)"):
+            if any((x["k"] == "DeclRefExpr" and x.get("did") in pm) or is_this_field(x, "_max_capacity") for x in walk(c)):
+                validated = True
+        for i in f.rec.get("inits") or []:
+            if i.get("member") == "_max_capacity" and isnode(i.get("expr")) and any(is_call(x, r"(next_power_of_two|bit_ceil|max_power_of_two)") for x in walk(i["expr"])):
+                validated = True
+    if not rej:
+        raise AnalysisBroken("_handle_full_queue: no rejection test of the record size against _max_capacity")
+    ctx.ob("C09.R4h", "UnboundedSPSCQueue:maximum-that-is-not-a-power-of-two-refuses-fitting-records", validated or all(rej),
+           "a record that is not larger than the configured maximum is either granted (once the consumer has caught up) or rejected with the "
+           "error: the maximum is validated / normalised to a power of two where the queue is built (%s), or the rejection test rounds the "
+           "record's size the way node capacities are rounded (%s)" % (validated, all(rej)), fn=m)
 
 
 def check_drain_publish(ctx, facts, cfg, crec):
